@@ -665,3 +665,217 @@ Proof.
   eexists. split; [vm_compute; reflexivity|]. split; [reflexivity|].
   eexists. split; reflexivity.
 Qed.
+
+(* ------------------------------------------------ surface / facet results *)
+Section Surface.
+Context {V : Type}.
+Implicit Types m : mesh V.
+
+Lemma flat_map_snd_combine {A} (l : list A) (rows : list conn) : length l = length rows ->
+  flat_map snd (combine l rows) = concat rows.
+Proof.
+  revert rows. induction l as [|a l IH]; intros [|r rows]; simpl; intros H; try discriminate; auto.
+  f_equal. apply IH. lia.
+Qed.
+
+Lemma renumber_conn start groups :
+  conn_ids (renumber_from start groups) = flat_map (fun g => concat (snd g)) groups.
+Proof.
+  revert start. induction groups as [|g r IH]; intros start; [reflexivity|].
+  unfold conn_ids in *. simpl. rewrite IH. f_equal.
+  apply flat_map_snd_combine. rewrite map_length, seq_length. reflexivity.
+Qed.
+
+Lemma map_seq_shift {B} (f : nat -> B) a : forall b s,
+  map f (seq (a + s) b) = map (fun k => f (a + k)%nat) (seq s b).
+Proof.
+  induction b as [|b IH]; intros s; simpl; [reflexivity|].
+  f_equal. rewrite <- IH. f_equal. f_equal. lia.
+Qed.
+
+Lemma ids_combine_gen {A} (l : list Z) (rows : list A) : length l = length rows ->
+  map fst (combine l rows) = l.
+Proof.
+  revert rows. induction l as [|a l IH]; intros [|r rows]; simpl; intros H; try discriminate; auto.
+  f_equal. apply IH. lia.
+Qed.
+
+(* the new element ids are start+1 .. start+k *)
+Lemma renumber_ids start groups :
+  eids (renumber_from start groups) =
+  map (fun k => start + Z.of_nat k) (seq 1 (length (flat_map snd groups))).
+Proof.
+  revert start. induction groups as [|g r IH]; intros start; [reflexivity|].
+  unfold eids, flatten, ids in *. simpl. rewrite map_app, IH.
+  rewrite app_length, seq_app, map_app. f_equal.
+  - rewrite map_map. simpl.
+    change (map (fun x : Z * conn => fst x) ?l) with (map fst l).
+    apply ids_combine_gen. rewrite map_length, seq_length. reflexivity.
+  - replace (1 + length (snd g))%nat with (length (snd g) + 1)%nat by lia.
+    rewrite (map_seq_shift (fun k => start + Z.of_nat k) (length (snd g)) _ 1%nat).
+    apply map_ext. intros k. lia.
+Qed.
+
+Theorem to_facets_ids m facets :
+  eids (elems (to_facets m facets)) = map Z.of_nat (seq 1 (length (flat_map snd facets))).
+Proof.
+  unfold to_facets, renumber; simpl. rewrite renumber_ids. apply map_ext. intros; lia.
+Qed.
+
+Lemma insert_nat_In x y l : In y (insert_nat x l) <-> y = x \/ In y l.
+Proof.
+  induction l as [|z r IH]; simpl; [intuition|].
+  destruct (Nat.ltb x z); simpl; [intuition|].
+  destruct (Nat.eqb_spec x z); simpl; [subst; intuition|]. rewrite IH. intuition.
+Qed.
+
+Lemma unique_nat_In x l : In x (unique_nat l) <-> In x l.
+Proof.
+  unfold unique_nat. induction l as [|y r IH]; simpl; [tauto|]. rewrite insert_nat_In, IH. intuition.
+Qed.
+
+Lemma insert_nat_sorted x l : StronglySorted lt l -> StronglySorted lt (insert_nat x l).
+Proof.
+  induction 1 as [|y r S IH F]; simpl; [repeat constructor|].
+  destruct (Nat.ltb_spec x y).
+  - constructor; [constructor; auto|]. constructor; auto. eapply Forall_impl; [|exact F]. intros; lia.
+  - destruct (Nat.eqb_spec x y); [constructor; auto|].
+    constructor; auto. rewrite Forall_forall in *. intros z Hz.
+    apply insert_nat_In in Hz. destruct Hz as [->|Hz]; [lia|auto].
+Qed.
+
+Lemma unique_nat_NoDup l : NoDup (unique_nat l).
+Proof.
+  assert (S : StronglySorted lt (unique_nat l)).
+  { unfold unique_nat. induction l; simpl; [constructor|apply insert_nat_sorted; auto]. }
+  induction S as [|x r S IH F]; constructor; auto.
+  intros Hin. rewrite Forall_forall in F. specialize (F x Hin). lia.
+Qed.
+
+Lemma mapM_In_inv {A B} (f : A -> option B) l r b : mapM f l = Some r -> In b r ->
+  exists a, In a l /\ f a = Some b.
+Proof.
+  revert r. induction l as [|x l IH]; simpl; intros r H Hb.
+  - inversion H; subst. destruct Hb.
+  - destruct (f x) eqn:F; [|discriminate]. destruct (mapM f l) eqn:M; [|discriminate].
+    inversion H; subst. destruct Hb as [E|Hb].
+    + subst. exists x. auto.
+    + destruct (IH _ eq_refl Hb) as [a [Ha Fa]]. exists a. auto.
+Qed.
+
+Lemma select_pos_NoDup ks (t r : table V) : NoDup ks -> NoDup (ids t) ->
+  select_pos ks t = Some r -> NoDup (ids r).
+Proof.
+  unfold select_pos. intros NDk NDt. revert r. induction ks as [|k ks IH]; simpl; intros r H.
+  - inversion H. constructor.
+  - destruct (nth_error t k) as [[i v]|] eqn:N; [|discriminate].
+    destruct (mapM _ ks) as [r'|] eqn:M; [|discriminate]. inversion H; subst; clear H.
+    inversion NDk; subst. simpl. constructor; [|apply IH; auto].
+    intros Hin. apply in_map_iff in Hin. destruct Hin as [[j w] [E Hw]]. simpl in E; subst j.
+    destruct (mapM_In_inv _ _ _ _ M Hw) as [k' [Hk' Nk']].
+    assert (Pk : nth_error (ids t) k = Some i) by (rewrite nth_ids, N; reflexivity).
+    assert (Pk' : nth_error (ids t) k' = Some i) by (rewrite nth_ids, Nk'; reflexivity).
+    assert (k = k').
+    { apply (proj1 (NoDup_nth_error (ids t)) NDt); [|congruence].
+      apply nth_error_Some. congruence. }
+    subst k'. auto.
+Qed.
+
+Definition all_positions (surf : list (nat * list (list nat))) : list nat :=
+  flat_map (fun g => concat (snd g)) surf.
+
+(* ids in the translated facet rows come from positions listed in surf *)
+Lemma groups_ids (t : table V) surf groups :
+  mapM (fun g : nat * list (list nat) =>
+          option_map (pair (fst g)) (mapM (positions_to_ids t) (snd g))) surf = Some groups ->
+  forall n, In n (flat_map (fun g : nat * list conn => concat (snd g)) groups) ->
+  exists k, In k (all_positions surf) /\ nth_error (ids t) k = Some n.
+Proof.
+  intros G n Hn. apply in_flat_map in Hn. destruct Hn as [[ty rows] [Hg Hn]]. simpl in Hn.
+  apply in_concat in Hn. destruct Hn as [row [Hrow Hn]].
+  destruct (mapM_In_inv _ _ _ _ G Hg) as [g0 [Hg0 Fg0]].
+  destruct (mapM (positions_to_ids t) (snd g0)) as [rows'|] eqn:R; [|discriminate].
+  simpl in Fg0. inversion Fg0; subst.
+  destruct (mapM_In_inv _ _ _ _ R Hrow) as [prow [Hp Fp]].
+  unfold positions_to_ids in Fp.
+  destruct (mapM_In_inv _ _ _ _ Fp Hn) as [k [Hk Fk]].
+  exists k. split; auto. unfold all_positions. apply in_flat_map. exists g0. split; auto.
+  apply in_concat. exists prow. auto.
+Qed.
+
+Lemma groups_count (t : table V) surf groups :
+  mapM (fun g : nat * list (list nat) =>
+          option_map (pair (fst g)) (mapM (positions_to_ids t) (snd g))) surf = Some groups ->
+  length (flat_map snd groups) = length (flat_map snd surf).
+Proof.
+  intros G. apply mapM_Forall2 in G. induction G as [|g0 g' s gs Hg F IH]; [reflexivity|].
+  simpl. rewrite !app_length, IH. f_equal.
+  destruct (mapM (positions_to_ids t) (snd g0)) as [rows'|] eqn:R; [|discriminate].
+  simpl in Hg. inversion Hg; subst. simpl. eapply mapM_length; eauto.
+Qed.
+
+(* to_surface with node removal: the result is self-contained, its elements
+   are numbered 1..k, the retained nodes keep their coordinates *)
+Theorem to_surface_self_contained c m m' surf :
+  wf_mesh m = true -> to_surface c m surf true = Some m' ->
+  self_contained m' /\
+  eids (elems m') = map Z.of_nat (seq 1 (length (flat_map snd surf))) /\
+  (forall n, In n (ids (nodes m')) -> lookup n (nodes m') = lookup n (nodes m)).
+Proof.
+  intros W H. destruct (wf_parts m W) as [NDn _].
+  unfold to_surface in H.
+  destruct (mapM _ surf) as [groups|] eqn:G; [|discriminate]. simpl in H.
+  fold (all_positions surf) in H.
+  set (ks := unique_nat (all_positions surf)) in *.
+  destruct (select_pos ks (nodes m)) as [ns|] eqn:Sp; [|discriminate].
+  destruct (map_nodal _ _) as [nd|]; [|discriminate].
+  inversion H; subst m'; clear H. simpl.
+  assert (NDs : NoDup (ids ns)) by (eapply select_pos_NoDup; eauto; apply unique_nat_NoDup).
+  split; [split; simpl; auto|split].
+  - intros n Hn. unfold renumber in Hn. rewrite renumber_conn in Hn.
+    destruct (groups_ids _ _ _ G n Hn) as [k [Hk Nk]].
+    assert (Hks : In k ks) by (apply unique_nat_In; exact Hk).
+    destruct (In_nth_error _ _ Hks) as [p Hp].
+    destruct (mapM_nth _ _ _ Sp p k Hp) as [e [He Hpe]].
+    rewrite nth_ids in Nk. rewrite He in Nk. simpl in Nk. inversion Nk; subst n.
+    apply in_map. eapply nth_error_In; eauto.
+  - unfold renumber. rewrite renumber_ids, (groups_count _ _ _ G). apply map_ext. intros; lia.
+  - intros n Hn. apply sub_lookup; auto. eapply select_pos_incl; eauto.
+Qed.
+
+(* nodal variables through to_first_order / to_surface when carried by id *)
+Definition full_vars m := filter (fun nv : nat * table V => Nat.eqb (length (snd nv)) (length (nodes m))) (nodal m).
+
+Definition vars_kept (l : list (nat * table V)) m' :=
+  Forall2 (fun nv nv' => fst nv' = fst nv /\ ids (snd nv') = ids (nodes m') /\
+             forall n, In n (ids (nodes m')) -> lookup n (snd nv') = lookup n (snd nv)) l (nodal m').
+
+Theorem to_first_order_nodal_by_id c m m' :
+  first_order_by_id c = true -> to_first_order c m = Some m' -> m' = m \/ vars_kept (full_vars m) m'.
+Proof.
+  intros Hc H. unfold to_first_order in H. rewrite Hc in H.
+  destruct (negb _); [inversion H; auto|].
+  destruct (elems_first_order (elems m)) as [fe|]; [|discriminate].
+  destruct (map_nodal _ _) as [nd|] eqn:Sd; [|discriminate].
+  inversion H; subst m'; clear H. right. unfold vars_kept, full_vars; simpl.
+  eapply Forall2_impl; [|apply map_nodal_spec; exact Sd].
+  intros nv nv' _ [A B]. simpl in B. split; auto. split.
+  - eapply select_ids_ids; eauto.
+  - intros n Hn. eapply select_ids_lookup; eauto.
+Qed.
+
+Theorem to_surface_nodal_by_id c m m' surf :
+  surface_by_id c = true -> to_surface c m surf true = Some m' -> vars_kept (full_vars m) m'.
+Proof.
+  intros Hc H. unfold to_surface in H. rewrite Hc in H.
+  destruct (mapM _ surf) as [groups|]; [|discriminate]. simpl in H.
+  destruct (select_pos _ (nodes m)) as [ns|]; [|discriminate].
+  destruct (map_nodal _ _) as [nd|] eqn:Sd; [|discriminate].
+  inversion H; subst m'; clear H. unfold vars_kept, full_vars; simpl.
+  eapply Forall2_impl; [|apply map_nodal_spec; exact Sd].
+  intros nv nv' _ [A B]. simpl in B. split; auto. split.
+  - eapply select_ids_ids; eauto.
+  - intros n Hn. eapply select_ids_lookup; eauto.
+Qed.
+
+End Surface.
